@@ -61,6 +61,11 @@ CORPUS = {
         {"t": "%Name(1" + "0" * 4400 + ")", "position": "name", "aliases": []},   # F7
         {"t": "%Size() < 2 or 1/0", "position": "filter", "aliases": []},
         {"t": "%Size() if %Size() < 2 else 'x'", "position": "sort", "aliases": []},   # F11: incomparable sort keys
+        {"t": "%Replace(\"a\", 'x\\\\'){%Name()}", "position": "name", "aliases": []},          # F19: replacement ends in a backslash
+        {"t": "%Replace('(a)', '\\\\2'){%Name()}", "position": "name", "aliases": []},           # F19: reference to a missing group
+        {"t": "%AsInt(){x}", "position": "name", "aliases": []},                           # K6a
+        {"t": "%Round(1){x}", "position": "name", "aliases": []},                          # K6a
+        {"t": "%Eval(){1/0}", "position": "name", "aliases": []},                          # K6b
     ],
     ("C09", "parse_mutants"): [{"t": "%Name()#"}, {"t": "%Trim(\x00)"}, {"t": "a\x01b"}],
     ("C10", "recognised"): [{"t": "%T('a\\\\nb')"}, {"t": "%T(\"a\\\"b\")"}, {"t": "%T('\\\\\\'')"}],   # F6
